@@ -63,6 +63,16 @@ class _Canon(ast.NodeTransformer):
             node.test, node.body, node.orelse = node.test.operand, node.orelse, node.body
         return node
 
+    def visit_Expr(self, node):
+        self.generic_visit(node)
+        # `yield A if c else B`  ->  if c: yield A / else: yield B   (the test is evaluated first either way)
+        v = node.value
+        if isinstance(v, ast.Yield) and isinstance(v.value, ast.IfExp):
+            e = v.value
+            mk = lambda x: ast.copy_location(ast.Expr(value=ast.copy_location(ast.Yield(value=x), v)), node)
+            return ast.copy_location(ast.If(test=e.test, body=[mk(e.body)], orelse=[mk(e.orelse)]), node)
+        return node
+
     def visit_IfExp(self, node):
         self.generic_visit(node)
         if isinstance(node.test, ast.UnaryOp) and isinstance(node.test.op, ast.Not):
@@ -324,6 +334,8 @@ class Inliner:
                         rep = rep + [ast.copy_location(ast.Expr(value=ast.Yield(value=ast.Name(id=tmp, ctx=ast.Load()))), st)]
                 elif isinstance(st, ast.Expr) and isinstance(st.value, ast.YieldFrom) and isinstance(st.value.value, ast.Call):
                     rep = self.expand(st.value.value, caller, None, True)
+            if rep is None and depth > 0 and isinstance(st, (ast.Assign, ast.AugAssign, ast.AnnAssign, ast.Return, ast.Expr)):
+                rep = self._hoist(st, caller)
             if rep is not None:
                 for r in rep:
                     ast.fix_missing_locations(r)
@@ -338,6 +350,60 @@ class Inliner:
                     hd.body = self.inline_block(hd.body, caller, depth)
             out.append(st)
         return out
+
+    def _hoist(self, st, caller):
+        """A call to a branching helper nested inside the expression of a simple statement: `x = [h(a)]` becomes the expanded
+        helper followed by `x = [_ret]`.  Only when the call is evaluated unconditionally and nothing with an effect (another
+        call, a yield) is evaluated before it in the statement, so the hoisted position is the position it ran at anyway."""
+        value = st.value
+        if value is None:
+            return None
+        found = []
+
+        def visit(n, conditional):
+            if isinstance(n, (ast.Lambda, ast.ListComp, ast.SetComp, ast.DictComp, ast.GeneratorExp)):
+                return
+            if isinstance(n, ast.IfExp):
+                visit(n.test, conditional)
+                visit(n.body, True)
+                visit(n.orelse, True)
+                return
+            if isinstance(n, ast.BoolOp):
+                visit(n.values[0], conditional)
+                for v in n.values[1:]:
+                    visit(v, True)
+                return
+            for c in ast.iter_child_nodes(n):
+                visit(c, conditional)
+            if isinstance(n, ast.Call):
+                found.append((n, conditional))
+        visit(value, False)
+        effects_before = False
+        for call, conditional in found:        # post-order = evaluation order for calls
+            if call is value:
+                break
+            h = None if conditional or effects_before else self.helper_for(call, caller)
+            if h is not None and not h.is_generator and _expr_body(h) is None:
+                rep = self.expand(call, caller, None, False)
+                if rep is not None:
+                    tmp = self._last_target(rep)
+                    new_st = copy.deepcopy(st)
+                    # replace the call (same position, same dump) in the copy
+
+                    class R(ast.NodeTransformer):
+                        done = False
+
+                        def visit_Call(self, n):
+                            if not R.done and ast.dump(n) == ast.dump(call) and \
+                                    (getattr(n, 'lineno', 0), getattr(n, 'col_offset', 0)) == (getattr(call, 'lineno', 0), getattr(call, 'col_offset', 0)):
+                                R.done = True
+                                return ast.copy_location(ast.Name(id=tmp, ctx=ast.Load()), n)
+                            return self.generic_visit(n)
+                    new_st = R().visit(new_st)
+                    if R.done:
+                        return rep + [new_st]
+            effects_before = True
+        return None
 
     def _last_target(self, rep):
         # the name assigned by the tail of an expanded helper
